@@ -131,6 +131,70 @@ func init() {
 		}
 		body += "(* handlers of the index: (name, returns at once when its subject is already indexed) *)\n"
 		body += "Definition index_handlers : list (string * bool) :=\n  [" + strings.Join(rows, ";\n   ") + "].\n"
+		// alias keys: what the handler touches, what the post-index action touches, when it runs
+		mfields := func(recv, name string) []string {
+			var out []string
+			seen := map[string]bool{}
+			if fd := funcDecl(idx, recv, name); fd != nil && fd.Body != nil {
+				ast.Inspect(fd.Body, func(n ast.Node) bool {
+					if se, ok := n.(*ast.SelectorExpr); ok {
+						if id, ok := se.X.(*ast.Ident); ok && id.Name == "m" && se.Sel.Name != "logger" && !seen[se.Sel.Name] {
+							seen[se.Sel.Name] = true
+							out = append(out, se.Sel.Name)
+						}
+					}
+					return true
+				})
+			}
+			return out
+		}
+		postAfterScan := false
+		if fd := funcDecl(idx, "metadataStoreIndex", "UpdateIndex"); fd != nil && fd.Body != nil {
+			scanSeen := false
+			for _, st := range fd.Body.List {
+				switch x := st.(type) {
+				case *ast.ForStmt:
+					scanSeen = true
+				case *ast.RangeStmt:
+					if scanSeen && exprString(x.X) == "m.postIndexActions" {
+						postAfterScan = true
+					}
+				}
+			}
+		}
+		var actions []string
+		if idx != nil {
+			ast.Inspect(idx.f, func(n ast.Node) bool {
+				if as, ok := n.(*ast.AssignStmt); ok && len(as.Lhs) == 1 && len(as.Rhs) == 1 && exprString(as.Lhs[0]) == "m.postIndexActions" {
+					if cl, ok := as.Rhs[0].(*ast.CompositeLit); ok {
+						for _, e := range cl.Elts {
+							actions = append(actions, exprString(e))
+						}
+					}
+				}
+				return true
+			})
+		}
+		body += "\n(* alias keys: fields of the index the handler of ContactAliasKeyAdded touches, fields and methods its post-index action touches,\n   the post-index actions, and whether UpdateIndex runs them after the scan loop *)\n"
+		body += "Definition alias_handler_touches : list string := " + coqStrList(mfields("metadataStoreIndex", "handleContactAliasKeyAdded")) + ".\n"
+		body += "Definition alias_post_action_touches : list string := " + coqStrList(mfields("metadataStoreIndex", "postHandlerSentAliases")) + ".\n"
+		body += "Definition post_index_actions : list string := " + coqStrList(actions) + ".\n"
+		body += fmt.Sprintf("Definition post_actions_run_after_scan : bool := %v.\n", postAfterScan)
+		// does the walk over the queue ever stop (return) before its end?
+		walkReturns := false
+		if fd := funcDecl(idx, "metadataStoreIndex", "postHandlerSentAliases"); fd != nil && fd.Body != nil {
+			for _, st := range fd.Body.List {
+				if rs, ok := st.(*ast.RangeStmt); ok {
+					ast.Inspect(rs.Body, func(n ast.Node) bool {
+						if _, ok := n.(*ast.ReturnStmt); ok {
+							walkReturns = true
+						}
+						return true
+					})
+				}
+			}
+		}
+		body += fmt.Sprintf("Definition alias_walk_can_stop_early : bool := %v.\n", walkReturns)
 		write("Index.v", body)
 	})
 }
